@@ -389,7 +389,27 @@ def make_models(int_value=None, on_float=None, extra=None):
             darr.elems[:] = [schar(x) for x in darr.elems]
         return a[0]
 
+    def m_memset(it, ctx, n, a):
+        k = _need_int(a[2], 'memset length')
+        c = _need_int(a[1], 'memset value') & 0xff
+        d = arr_of(a[0])
+        if d is None:
+            raise Unsupported('memset on %r' % (a[0],))
+        arr, i = d
+        es = esz_of(arr) or 1
+        if (i * es) % es or k % es:
+            raise Unsupported('memset of a partial element')
+        word = int.from_bytes(bytes([c] * es), 'little')
+        for j in range(k // es):
+            ElemPlace(arr, i + j).set(it, schar(word) if es == 1 else word)
+        return a[0]
+
+    def m_strcasecmp(it, ctx, n, a):
+        low = lambda bs: [b + 32 if 65 <= b <= 90 else b for b in bs]
+        return _cmp(low(cbytes(a[0])) + [0], low(cbytes(a[1])) + [0])
+
     models = {
+        'memset': m_memset, 'memmove': m_memcpy, 'strcasecmp': m_strcasecmp,
         'strlen': m_strlen, 'strcmp': m_strcmp, 'strncmp': m_strncmp, 'strncasecmp': m_strncasecmp,
         'memcmp': m_memcmp, 'strchr': m_strchr, 'memchr': m_memchr, 'strstr': m_strstr, '__ctype_b_loc': m_ctype,
         'strtoul': _strtoint(False), 'strtoull': _strtoint(False), 'strtol': _strtoint(True), 'strtoll': _strtoint(True),
@@ -416,6 +436,58 @@ class CInterp(Interp):
                 self.crashes = []
             self.crashes.append('%s:%d' % (self.unit.name, n.line))
         return Interp.deref_target(self, b, n)
+
+    def _layout(self, t, depth=0):
+        """(size, align) of C type t on x86-64, or None"""
+        import re
+        from .interp import int_type
+        t = (t or '').replace('const ', '').replace('volatile ', '').strip()
+        if depth > 6 or not t:
+            return None
+        m = re.match(r'^(.*?)\s*\[(\d+)\]$', t)
+        if m:
+            e = self._layout(m.group(1), depth + 1)
+            return (e[0] * int(m.group(2)), e[1]) if e else None
+        if t.endswith('*') or '(*)' in t:
+            return (8, 8)
+        ity = int_type(t)
+        if ity:
+            b = max(1, ity[0] // 8)
+            return (b, b)
+        if t in ('float',):
+            return (4, 4)
+        if t in ('double',):
+            return (8, 8)
+        if t == 'long double':
+            return (16, 16)
+        b = t.replace('struct ', '').replace('enum ', '').strip()
+        if b in self.unit.enum_types and b not in self.unit.records:
+            return (4, 4)
+        if t.startswith('union '):
+            return None
+        rec = self.unit.records.get(b)
+        if rec is not None:
+            off, al = 0, 1
+            for (fn_, ft, bf) in rec:
+                if bf:
+                    return None
+                l = self._layout(ft, depth + 1)
+                if l is None:
+                    return None
+                off = (off + l[1] - 1) // l[1] * l[1] + l[0]
+                al = max(al, l[1])
+            return ((off + al - 1) // al * al, al) if rec else None
+        td = self.unit.typedefs.get(b)
+        if td and td != t:
+            return self._layout(td, depth + 1)
+        return None
+
+    def sizeof(self, t, n=None):
+        v = Interp.sizeof(self, t, n)
+        if isinstance(v, int):
+            return v
+        l = self._layout(t)
+        return l[0] if l else v
 
     _defs = {}
 
